@@ -121,6 +121,31 @@
     unreachable_pub
 )]
 
+/// Verification hooks. Compiled only with `--cfg wowrs_verif`; absent from normal builds.
+#[cfg(wowrs_verif)]
+pub mod verif {
+    use std::sync::RwLock;
+
+    static YIELD_HOOK: RwLock<Option<fn(&'static str)>> = RwLock::new(None);
+
+    /// Install (or remove) a function that is called at the start of every parallel task.
+    pub fn set_yield_hook(f: Option<fn(&'static str)>) {
+        if let Ok(mut g) = YIELD_HOOK.write() {
+            *g = f;
+        }
+    }
+
+    /// Called at the start of every parallel task; does nothing unless a hook is installed.
+    #[inline]
+    pub fn verif_yield(tag: &'static str) {
+        if let Ok(g) = YIELD_HOOK.read() {
+            if let Some(f) = *g {
+                f(tag);
+            }
+        }
+    }
+}
+
 pub mod archive;
 pub mod buffer_pool;
 pub mod builder;
